@@ -12,21 +12,28 @@ import (
 func TestMain(m *testing.M) {
 	vk.Main(m, vk.Config{
 		Property: "C01",
-		Rule: "(a) rapid-generated histories on a real store (1-60 txs, 1-8 entries, kv/tx metadata, header version 0/1/mixed, native commits or " +
-			"hand-assembled replicated txs whose binary linking lags the linear chain) plus a fork store sharing a replicated prefix; every honest " +
-			"proof must verify against an independent re-statement of the hashing rules; then batches of adversarial answers (field mutation of both " +
-			"headers and of every term list, sub-proof swaps, splices from the fork, relabelling, entry/inclusion-proof alteration) are pushed through " +
-			"the client's verification steps for a client that trusts a true state of H: accept => the accepted Alh/entry is H's (or a history that " +
-			"really extends the trusted state). (b) synthetic equivocating servers (Merkle tree inconsistent with the linear chain) against a client " +
-			"session: no two different Alh for one tx id are ever accepted. (c) real server + real client with a reply-mutating interceptor. " +
-			"Non-trivial: the honest base proof uses the Merkle part (src < BlTxID of dst) or a linear-advance proof and the answer is altered; " +
-			"sessions in which the equivocated position was seen by the client before; distinct by hash of (shape, ids, mutation names).",
+		Rule: "(a) TestStoreProofs: rapid-generated histories on a real store (1-60 txs, 1-8 entries, kv/tx metadata, header version 0/1/mixed, native commits or " +
+			"hand-assembled replicated txs whose binary linking lags the linear chain by a generated amount) plus a fork store sharing a replicated prefix; every honest " +
+			"DualProof/DualProofV2/LinearProof/LinearAdvanceProof/entry inclusion proof must verify against an independent re-statement of the hashing rules; then batches of " +
+			"adversarial answers (mutation of every field of both headers and of every term list, sub-proof swaps, nil parts, splices from the fork, relabelling, entry / " +
+			"inclusion-proof alteration, adaptive re-hashing) go through the client's verification steps for a client that trusts a true state of H: accept => the accepted " +
+			"Alh/entry is H's (or belongs to a history that really extends the trusted state). (b) TestEquivocationSessions: synthetic equivocating servers (one honest " +
+			"linear chain, Merkle tree holding another transaction's Alh at generated positions, optionally rewritten later, optionally lying source headers) against a " +
+			"client session of forward/backward verified reads: no accepted verification may pair a source Alh with a target whose tree contradicts the source chain, and " +
+			"no tx id is ever accepted with two different Alh. (c) TestClientServer: real server (bufconn) + real pkg/client (one without, one with the state-signing " +
+			"public key) + a reply-altering interceptor over VerifiedGet*/VerifiedTxByID/VerifiedSet/SetReference/ZAdd/VerifyRow: success => stored state is a true, " +
+			"non-decreasing, (validly signed) state and the returned data is the history's. Non-trivial: (a) the honest base proof uses the Merkle part (src < BlTxID of dst) " +
+			"or a linear-advance proof and the answer is altered; (b) the client read an equivocated position or a step was rejected; (c) a reply was altered; " +
+			"distinct by hash of (shape, ids, mutation names).",
 		Assumptions: []string{
 			"SHA-256 is collision resistant; forgeries needing a collision are out of reach",
-			"the client's trusted state is a true state of the reference history H (a verifier binds claims only relative to trusted inputs)",
-			"a continuation of the trusted state that the adversary hashes afresh (altered target header + recomputed linear term) is a legitimate, unfalsifiable extension: counted, not asserted",
-			"replies that crash the client (nil sub-messages, unknown header version) are property C16's: recovered and counted here",
-			"state signatures (optional step 9) are not exercised: no signing key is configured",
+			"the client's trusted state is a true state of the reference history H (a verifier binds claims only relative to trusted inputs); first contact is trusted as pkg/client does",
+			"a continuation of the trusted state that the adversary hashes afresh (altered target header + recomputed linear term; with DualProofV2 any target header whose BlRoot extends the trusted tree) is a legitimate, unfalsifiable extension: counted, not asserted",
+			"replies that crash the client (nil sub-messages, unknown header version) and the unbounded column count of an encoded SQL row are property C16's: recovered / not generated, and counted here",
+			"the value a reference resolves to is not covered by the proof (docs/security/PROOFS.md: the proof is for the reference entry): only the reference entry is asserted",
+			"Entry.Revision and Entry.Expired are not provable and not asserted; staleness of an unpinned VerifiedGet (an older true version) is not asserted",
+			"VerifyDocument (pkg/verification) and streaming verified calls are not driven end to end; DualProofV2, which VerifyDocument relies on, is covered at store level",
+			"equivocating servers use single-position alternatives (same id/PrevAlh/linking, other entries); alternatives spanning several consecutive leaves are not generated",
 		},
 		Probes: []vk.Probe{
 			{ID: kV0MD, Present: probeV0MD},
@@ -34,6 +41,8 @@ func TestMain(m *testing.M) {
 			{ID: kTxByID, Present: probeTxByID},
 			{ID: kGetKey, Present: probeGetKey},
 			{ID: kHdrEh, Present: probeHdrEh},
+			{ID: kSQLCatalog, Present: probeSQLCatalog},
+			{ID: kV2Same, Present: probeV2Same},
 		},
 	})
 }
@@ -46,12 +55,13 @@ func TestStoreProofs(t *testing.T) {
 	if vk.Thorough() {
 		maxN, claims = 60, 120
 	}
-	vk.Check(t, 700, 40000, func(rt *rapid.T, c *vk.Case) {
+	vk.Check(t, 700, 16000, func(rt *rapid.T, c *vk.Case) {
 		w := buildWorld(rt, c, maxN)
 		defer removeWorld(w)
 		checkComplete(rt, c, w.H, 25)
 		checkComplete(rt, c, w.F, 8)
 		checkSound(rt, c, w, claims)
+		checkSoundV2(rt, c, w, claims/3)
 		if w.H.maxLag() > 1 {
 			c.Label("lag>1")
 		}
